@@ -23,6 +23,8 @@
 #include <chrono>
 #include <array>
 #include <memory>
+#include <mutex>
+#include <condition_variable>
 
 #if defined(__SANITIZE_THREAD__)
 #define C17_TSAN 1
@@ -543,16 +545,17 @@ namespace c17
   // ---------------------------------------------------------------------------------------------------
   struct Watchdog
   {
-    std::atomic<bool> stop{ false }; std::thread th;
+    std::mutex mtx; std::condition_variable cv; bool stop = false; std::thread th;
     Watchdog(Ctx& c, int wd_ms)
     {
       int fd = c.fd;
       th = std::thread([this, fd, wd_ms]
       {
         long last = -1; auto t0 = std::chrono::steady_clock::now();
-        while(!stop.load(std::memory_order_relaxed))
+        std::unique_lock<std::mutex> lk(mtx);
+        while(!stop)
         {
-          std::this_thread::sleep_for(std::chrono::milliseconds(20));
+          cv.wait_for(lk, std::chrono::milliseconds(20)); if(stop) break;
           long p = progress_counter().load(std::memory_order_relaxed); auto now = std::chrono::steady_clock::now();
           if(p != last) { last = p; t0 = now; continue; }
           if(std::chrono::duration_cast<std::chrono::milliseconds>(now - t0).count() > wd_ms)
@@ -563,7 +566,7 @@ namespace c17
         }
       });
     }
-    ~Watchdog() { stop.store(true, std::memory_order_relaxed); th.join(); }
+    ~Watchdog() { { std::lock_guard<std::mutex> lk(mtx); stop = true; } cv.notify_all(); th.join(); }
   };
 
   // ---------------------------------------------------------------------------------------------------
